@@ -142,6 +142,17 @@ CHECKS = {
         note='Trusted: the monitor\'s framing parser and bookkeeping of what it sent. Evidence reports messages, output events and the adjacency kinds '
              'of response/event/output messages observed.',
         ref='DESIGN.md §4 C12'),
+    'C13': dict(
+        technique='runtime monitoring: reference-model monitor (the program\'s known event sequence replayed against the latest breakpoint sets and their options) over the stopped/output events of the real adapter, with differential request timing',
+        text='Seeded histories of setBreakpoints / setFunctionBreakpoints / setInstructionBreakpoints requests with conditions, hit conditions and '
+             'log messages, made before the program starts, at stops and after restart, on a program whose events per iteration are known (entry '
+             'instruction and first body line of two functions, a later body line, a generic function with three instantiations, an inlined '
+             'helper): every `stopped` event (identified by the top frame) must be the next stop of the model for the latest sets, log points must '
+             'produce exactly their outputs and never stop, `verified` must be true exactly for locations with code. Held for breakpoints '
+             'created while the program runs on single locations; the listed known findings cover pre-start records and multi-location lines.',
+        note='Trusted: determinism of the generated program and its event order. Violation signatures carry the location kind (single / multi) and '
+             'when the offending record was created, so that a defect of one timing class cannot hide one of another.',
+        ref='DESIGN.md §4 C13'),
     'C06': dict(
         technique='runtime monitoring: structural comparison of the debugger\'s Value trees with the debuggee\'s own canonical self-description (reference model = safe Rust in the program)',
         text='Generated programs hold ~40 variables each (locals, statics, thread-locals, arguments) from a recursive type grammar with boundary '
